@@ -412,3 +412,15 @@ package bigslice
 //@   ensures  empty-shard: implies(shardCnt(s.frame.len, s.nshard, shard) == 0, hastype(r, sliceio.EmptyReader))
 //@   ensures  shard-view: implies(shardCnt(s.frame.len, s.nshard, shard) > 0, hastype(r, *constReader) && unbox(r, *constReader).frame.data == s.frame.data && unbox(r, *constReader).frame.off == s.frame.off + shardOff(s.frame.len, s.nshard, shard) && unbox(r, *constReader).frame.len == shardCnt(s.frame.len, s.nshard, shard) && unbox(r, *constReader).op == s)
 //@   modifies nothing
+
+// ---- C01: Fold accumulates every row of its shard, including a final batch that arrives with end-of-stream ----
+
+//@ func bigslice.(*foldReader).compute (ctx) (a, err)
+//@   requires f != nil && f.op != nil && f.reader != nil && defaultChunksize >= 1 && tyNumOut(f.op.dep.Slice) >= 1 && tyNumOut(f.op.out) >= 2
+//@   may_panic
+//@   flag abstract_calls frame.Make
+//@   flag trust_nil_safety
+//@   ensures  every-row-accumulated: implies(err == nil, a != nil && accRows - old(accRows) == rowsSupplied - old(rowsSupplied) && f.reader.lastErr == sliceio.EOF)
+//@   ensures  upstream-error-returned: implies(err != nil, a == nil && err == f.reader.lastErr && err != sliceio.EOF)
+//@   modifies accRows, userCalls, lastCallRvs, ColMem, colClock, SReader.nreads, SReader.lastN, SReader.lastErr, rowsSupplied, sawRowsWithEOF
+//@   loop 1 invariant accRows - old(accRows) == rowsSupplied - old(rowsSupplied) && accum != nil && f.reader == old(f.reader)
